@@ -280,6 +280,56 @@ def _execute(sc):
                     "get-mismatch",
                     f"op {i} {op}: vm={got!r} model={models[v].g[op[2]]!r}",
                 )
+        elif kind == "invx":
+            # an unusual but legal call (an argument left out): judged by a clean-room twin, not by the
+            # model - "each invocation starts with fresh locals and sees the globals as left by the
+            # preceding operations" means: it does what a brand-new VM with the same globals does
+            f = fnames.get(op[2])
+            if f is None or any(n not in models[v].g for n, _t in prog["globals"]):
+                continue
+            if any(isinstance(x, dict) and "$ref" in x and x["$ref"] >= len(host_pristine) for x in op[3].values()):
+                continue
+
+            def outcome_of(vm, args):
+                _counter["n"] = 0
+                _counter["limit"] = STEP_BASE * 10
+                try:
+                    with core.Quiet():
+                        r_ = ["ret", jsonable(vm.Invoke(op[2], **args))]
+                except StepBudgetExceeded:
+                    r_ = ["no-progress"]
+                except Exception as e:
+                    r_ = ["raises", type(e).__name__]
+                finally:
+                    _counter["limit"] = None
+                return r_, {n: jsonable(vm.GetGlobal(n)) for n, _t in prog["globals"]}
+
+            snap = {n: copy.deepcopy(vms[v].GetGlobal(n)) for n, _t in prog["globals"]}
+            lkt = LinearIR.Linker()
+            lkt.AddModule(module)
+            twin = VM.VirtualMachine(lkt.Link())
+            for n in sorted(snap):
+                twin.SetGlobal(n, copy.deepcopy(snap[n]))
+            want = outcome_of(twin, model_args(op[3]))
+            got = outcome_of(vms[v], vm_args(op[3]))
+            bump("twin_checked_invocations")
+            bump("twin_outcome_" + got[0][0])
+            log.add("invx", vm=v, fn=op[2], args=op[3], outcome=got[0])
+            abstract.append([v, "invx", op[2], got[0][0]])
+            if not (got[0][0] == want[0][0] and (got[0][0] != "ret" or eq(got[0][1], want[0][1]))
+                    and (got[0][0] != "raises" or got[0][1] == want[0][1]) and eq(got[1], want[1])):
+                return done(
+                    "violation",
+                    "history-dependence",
+                    f"op {i} {op}: on vm{v} (after its history) the invocation gives {got[0]} and globals {got[1]}, on a "
+                    f"brand-new VM of a freshly linked program with the same globals it gives {want[0]} and {want[1]}",
+                )
+            models[v].g = copy.deepcopy(got[1])
+            if "null" in core.canon(got[1]):
+                # the missing argument ended up inside a global: from here on the precondition "every
+                # global holds a value of its type" is gone, nothing later is judged
+                bump("twin_runs_cut_unset_value_reached_a_global")
+                return done("ok", None, "cut: a missing argument was stored into a global", cut=True)
         elif kind == "inv":
             f = fnames.get(op[2])
             if f is None or any(n not in op[3] for n, _t in f["params"]):
